@@ -67,6 +67,12 @@ theorem axisSel_range (n a b : Nat) (hab : a ≤ b) (hb : b ≤ n) :
     (by simp only [clampPos]; split <;> omega)]
   simp [bind, Except.bind]
 
+theorem axisSel_range' (n : Nat) (a b : Int) (a' b' : Nat) (ha : a = (a' : Int)) (hb' : b = (b' : Int))
+    (hab : a' ≤ b') (hb : b' ≤ n) :
+    axisSel n (.slice (some a) (some b) none) = .ok (false, (List.range (b' - a')).map fun j => a' + j) := by
+  subst ha hb'
+  exact axisSel_range n a' b' hab hb
+
 /-! ### `A[ky, kx]` on an array of fresh variables `f 0, f 1, …` -/
 
 theorem pick_fresh (f : Nat → Expr) (h w y x : Nat) (hy : y < h) (hx : x < w) :
@@ -198,8 +204,7 @@ theorem addKeysV_fresh (k : Bool) (h w N : Nat) (f : Nat → Expr) (hf : ∀ i, 
   have := addKeys_fold f hf N 0
   simp only [List.range_zero, Nat.zero_add] at this
   simp only [addKeysV, PyV.flat]
-  rw [List.range_eq_range'] at this ⊢
-  rw [← List.range_eq_range' (n := N)]
+  rw [show List.range N = List.range' 0 N from List.range_eq_range'] at *
   exact this
 
 /-! ### Operator dispatch on the scalars these solvers build (all by computation) -/
@@ -356,10 +361,8 @@ theorem countTrueA_arr1 (l : List Expr) (hl : ∀ x ∈ l, x.isBoolLike = true) 
   exact countTrue_ok_of_boolLike hl
 
 theorem countTrueE_isNode (l : List Expr) : ∃ op args, countTrueE l = .node op args ∧ op.isIntOp = true := by
-  unfold countTrueE
-  split
-  · exact ⟨.intConst, _, rfl, rfl⟩
-  · exact ⟨.add, _, rfl, rfl⟩
+  simp only [countTrueE]
+  split <;> split <;> first | exact ⟨.intConst, _, rfl, rfl⟩ | exact ⟨.add, _, rfl, rfl⟩
 
 theorem alldifferentA_arr (v : PyV) (l : List Expr) (hv : v.flat = l) (hl : ∀ x ∈ l, x.isIntExpr = true) :
     alldifferentA [.leaf v] = .ok (.node .alldiff l) := by
@@ -368,6 +371,12 @@ theorem alldifferentA_arr (v : PyV) (l : List Expr) (hv : v.flat = l) (hl : ∀ 
   rw [List.all_eq_true]
   intro x hx
   simp [hl x hx]
+
+theorem alldifferentA_arr1 (k : Bool) (l : List Expr) (hl : ∀ x ∈ l, x.isIntExpr = true) :
+    alldifferentA [.leaf (.arr1 k l)] = .ok (.node .alldiff l) := alldifferentA_arr _ l rfl hl
+
+theorem alldifferentA_arr2 (k : Bool) (h w : Nat) (l : List Expr) (hl : ∀ x ∈ l, x.isIntExpr = true) :
+    alldifferentA [.leaf (.arr2 k h w l)] = .ok (.node .alldiff l) := alldifferentA_arr _ l rfl hl
 
 
 end Cspuz.Proofs.C11CL
